@@ -46,6 +46,19 @@ class Expressed:
         self.awaiting = False      # the application has started awaiting the result
 
 
+class FalsyCallable:
+    """A validator / handler that is a callable OBJECT which is falsy while it is 'empty' (it has a __len__): a legal callable."""
+
+    def __init__(self, fn):
+        self.fn = fn
+
+    def __len__(self):
+        return 0
+
+    def __call__(self, *a, **k):
+        return self.fn(*a, **k)
+
+
 class AppSim:
     def __init__(self, frontend: str, registerer=None, vl=None, local=True):
         self.frontend = frontend
@@ -130,28 +143,37 @@ class AppSim:
 
     # -- express ----------------------------------------------------------------------------------
     def express(self, name, lifetime=4000, can_be_prefix=False, must_be_fresh=False, vlat=0.0, verdict=True,
-                validator='default', app_param=None, signer=None, nonce=1234, await_after=0.0, shared_param=False):
+                validator='default', app_param=None, signer=None, nonce=1234, await_after=0.0, shared_param=False,
+                falsy_validator=False, gate=None):
         """name: list of component bytes.  vlat seconds.  verdict: ValidResult (v2) / truthy (legacy)."""
         h = Expressed(len(self.expressed))
         self.expressed.append(h)
         vl = self.vl
 
+        async def _wait():
+            if gate is not None:
+                # several validators wait for ONE thing that is in flight (e.g. a certificate being fetched): a future shared by
+                # all of them, resolved at the absolute time `gate` (seconds on the virtual clock)
+                await self.gate_future(gate)
+            elif vlat is not None:
+                await asyncio.sleep(vlat)
+
         if self.frontend == 'v2':
             async def _validator(_n, _s, _ctx):
                 rec = [vl.now_ms(), None]
                 h.validator_calls.append(rec)
-                if vlat is not None:
-                    await asyncio.sleep(vlat)
+                await _wait()
                 rec[1] = vl.now_ms()
                 return verdict
         else:
             async def _validator(_n, _s):
                 rec = [vl.now_ms(), None]
                 h.validator_calls.append(rec)
-                if vlat is not None:
-                    await asyncio.sleep(vlat)
+                await _wait()
                 rec[1] = vl.now_ms()
                 return verdict
+        if falsy_validator:
+            _validator = FalsyCallable(_validator)
         if validator == 'none':
             _validator = None
         elif validator == 'stock':
@@ -217,6 +239,16 @@ class AppSim:
         self.vl.call(_do)
         self.vl.settle()
         return h
+
+    def gate_future(self, at):
+        gates = self.__dict__.setdefault('_gates', {})
+        if at not in gates:
+            loop = asyncio.get_running_loop()
+            fut = loop.create_future()
+            gates[at] = fut
+            delay = max(0.0, at - self.vl.clock.t)
+            loop.call_later(delay, lambda: fut.done() or fut.set_result(None))
+        return gates[at]
 
     def deliver_then_cancel(self, wire: bytes, h: Expressed):
         """The face has just handed a packet to the application (its reception task is scheduled but has not run yet) when the
